@@ -87,6 +87,9 @@ type FnExec struct {
 	mode     string // "full" or "safety"
 	mutSlices map[ssa.Value]Val
 	waived      []string
+	inheritedPre bool
+	implOf      types.Type
+	outerVal    *Val
 	inTypeInv   bool
 	inContractApply bool
 	zeroInit    bool
@@ -214,7 +217,7 @@ func (fx *FnExec) assume(t string) {
 	fx.c.assert(sImp(fx.curReach, t))
 }
 
-var safetyClasses = map[string]bool{"immutable": true, "monotone": true, "boxnil": true, "typeinv": true, "nil": true, "idx": true, "assert": true, "div": true, "unreachable": true, "makeslice": true}
+var safetyClasses = map[string]bool{"typeinv-exit": true, "immutable": true, "monotone": true, "boxnil": true, "typeinv": true, "nil": true, "idx": true, "assert": true, "div": true, "unreachable": true, "makeslice": true}
 
 func (fx *FnExec) oblige(class, label, goal, text string, p token.Pos) *Obligation {
 	if fx.con != nil {
@@ -343,16 +346,22 @@ func (fx *FnExec) wellTyped(v Val, h *Heap) string {
 		if l.Sort == "Int" && l.T != nil {
 			facts = append(facts, rangeFact(v.L[i], l.T))
 		}
-		if l.Path == "len" || strings.HasSuffix(l.Path, ".len") {
+		if l.Sort == "Int" && (l.Path == "len" || strings.HasSuffix(l.Path, ".len")) {
 			facts = append(facts, sLe("0", v.L[i]), sLe(v.L[i], "9223372036854775807"))
 			// nil slices are empty
-			if i > 0 && (ls[i-1].Path == "nil" || strings.HasSuffix(ls[i-1].Path, ".nil")) {
+			if i > 0 && ls[i-1].Sort == "Bool" && (ls[i-1].Path == "nil" || strings.HasSuffix(ls[i-1].Path, ".nil")) {
 				facts = append(facts, sImp(v.L[i-1], sEq(v.L[i], "0")))
 			}
 		}
 	}
 	if isTypeParam(v.T) {
 		return sAnd(facts...)
+	}
+	if isSlice(v.T) && len(v.L) == 3 {
+		if et := elemOf(v.T); typeKey(et) == "byte" || typeKey(et) == "uint8" {
+			// a nil (hence empty) byte slice denotes the empty string
+			facts = append(facts, sImp(sEq(v.L[1], "0"), sEq(app("bytes_str", v.L[2], v.L[1]), "str_empty")))
+		}
 	}
 	switch under(v.T).(type) {
 	case *types.Pointer, *types.Map:
